@@ -119,38 +119,61 @@ def run_property(P, tier, seed, replay=None):
         cases += mk_cases("corpus", corpus)
         cases += P.generate(tier, rng)
     t1 = time.time()
-    lines = [c.line for c in cases]
-    impl = P.run_impl(lines) if hasattr(P, "run_impl") else core.run_impl(lines)
-    model = P.run_model(lines) if hasattr(P, "run_model") else core.run_model(lines)
-    run_s = time.time() - t1
-
     disagreements, oracle_fail, known_hits = [], [], collections.Counter()
     hist = collections.Counter()
     distinct = set()
-    for c in cases:
-        i = impl.get(c.cid, "MISSING")
-        m = model.get(c.cid, "MISSING")
-        hist[P.classify(c, i)] += 1
-        if P.nontrivial(c, i):
-            distinct.add(c.line.split(" ", 1)[1])
-        try:
-            verdict, detail = P.oracle(c, i)
-        except Exception as e:
-            if not replay and c.gen != "corpus": raise
-            verdict, detail = "unknown", "oracle not applicable to a bare replay / corpus line (%s)" % type(e).__name__
-        k = None
-        if verdict == "violates":
-            k = P.known(c, i, detail)
-            if k:
-                known_hits[k] += 1
-            else:
-                oracle_fail.append((c, i, m, detail))
-        d = P.compare(c, i, m)
-        if d is not None:
-            if verdict == "violates" and k:
-                continue          # the disagreement is the known finding itself
-            if verdict != "violates":
-                disagreements.append((c, i, m, d))
+    def evaluate(P, cases):
+        lines = [c.line for c in cases]
+        impl = P.run_impl(lines) if hasattr(P, "run_impl") else core.run_impl(lines)
+        model = P.run_model(lines) if hasattr(P, "run_model") else core.run_model(lines)
+        for c in cases:
+            i = impl.get(c.cid, "MISSING")
+            m = model.get(c.cid, "MISSING")
+            hist[P.classify(c, i)] += 1
+            if P.nontrivial(c, i):
+                distinct.add(c.line.split(" ", 1)[1])
+            try:
+                verdict, detail = P.oracle(c, i)
+            except Exception as e:
+                if not replay and c.gen != "corpus": raise
+                verdict, detail = "unknown", "oracle not applicable to a bare replay / corpus line (%s)" % type(e).__name__
+            k = None
+            if verdict == "violates":
+                k = P.known(c, i, detail)
+                if k:
+                    known_hits[k] += 1
+                else:
+                    oracle_fail.append((c, i, m, detail))
+            d = P.compare(c, i, m)
+            if d is not None:
+                if verdict == "violates" and k:
+                    continue          # the disagreement is the known finding itself
+                if verdict != "violates":
+                    disagreements.append((c, i, m, d))
+        return impl
+    impl = evaluate(P, cases)
+    run_s = time.time() - t1
+    ncases = len(cases)
+
+    # ---------- 2b. escalation: the source differs from the tree this development was last validated against (pinned_source.json)
+    # and the ordinary run found nothing - search further, with fresh generator seeds, before saying the property held
+    changed = build.source_changed()
+    if os.environ.get("VERIF_FORCE_ESCALATE"): changed = changed | {"(forced by VERIF_FORCE_ESCALATE)"}
+    escal = {"source_differs_from_pinned": sorted(changed), "extra_rounds": 0, "extra_cases": 0}
+    if changed and tier == "quick" and not replay and not oracle_fail and not disagreements:
+        budget = float(os.environ.get("VERIF_ESCALATE_S", "240"))
+        t2 = time.time()
+        for k_ in range(1, 9):
+            if time.time() - t2 > budget: break
+            P2 = type(P)()      # (property objects keep per-run state keyed by case id)
+            extra = P2.generate("quick", random.Random(seed * 7919 + k_))
+            extra_cases = [Case("x%d%s" % (k_, c.cid), "x%d%s %s" % (k_, c.cid, c.line.split(" ", 1)[1]), c.gen, c.meta) for c in extra]
+            evaluate(P2, extra_cases)
+            ncases += len(extra_cases)
+            escal["extra_rounds"] += 1; escal["extra_cases"] += len(extra_cases)
+            if oracle_fail or disagreements:
+                P = P2
+                break
 
     # every finding listed in known_findings.json for this property is reported on every run, observed or not
     listed = [k for k in core.load_known() if k.get("property") == P.prop and k.get("status") == "known"]
@@ -163,22 +186,25 @@ def run_property(P, tier, seed, replay=None):
             rep.violation({"seed": seed, "spec-verdict": "violation of an unlisted known class: " + k}, [], no_input=False)
 
     # ---------- 3. verdicts
+    def cseed(c):
+        # cases of an escalation round carry the round in their id: the replay regenerates them from that round's seed
+        return seed * 7919 + int(c.cid[1]) if c.cid[:1] == "x" and c.cid[1:2].isdigit() else seed
     for (c, i, m, detail) in oracle_fail[:10]:
         c2, i2 = P.shrink(c, i) if hasattr(P, "shrink") else (c, i)
-        rep.violation({"generator": c.gen, "seed": seed, "impl-output": i2, "model-output": m,
+        rep.violation({"generator": c.gen, "seed": cseed(c), "impl-output": i2, "model-output": m,
                        "spec-verdict": "impl violates the property: " + detail,
                        "input": P.show(c2)}, [c2.line])
     if disagreements and not oracle_fail:
         # impl and model differ but the impl's own output satisfies the executable spec on every case of this run:
         # the correspondence is broken, no failing input was found
         c, i, m, d = disagreements[0]
-        rep.violation({"generator": c.gen, "seed": seed, "impl-output": i, "model-output": m,
+        rep.violation({"generator": c.gen, "seed": cseed(c), "impl-output": i, "model-output": m,
                        "unchecked": "corr:%s:%s" % (P.prop, d), "input": P.show(c),
-                       "note": "%d disagreeing cases; spec oracle found no violation in %d impl outputs" % (len(disagreements), len(cases))},
+                       "note": "%d disagreeing cases; spec oracle found no violation in %d impl outputs" % (len(disagreements), ncases)},
                       [x[0].line for x in disagreements[:20]], no_input=True)
     if not proof_ok and not oracle_fail and not (disagreements):
         rep.violation({"unchecked": broken, "seed": seed,
-                       "note": "proof obligation no longer checks; spec oracle found no violation in %d impl outputs" % len(cases),
+                       "note": "proof obligation no longer checks; spec oracle found no violation in %d impl outputs" % ncases,
                        "coq-log": pr.get("log", "")[-1500:]}, [], no_input=True)
     elif not proof_ok and oracle_fail:
         pass  # already reported with a failing input
@@ -196,17 +222,18 @@ def run_property(P, tier, seed, replay=None):
         "theorems": [{"name": n, "assumptions": a or "Closed under the global context"} for n, a in thms],
         "proof_status": "all obligations check" if proof_ok else "BROKEN: %s" % broken,
         "coqchk": chk if chk else "not run in this tier (thorough only)",
-        "evaluations": len(cases),
+        "evaluations": ncases,
         "distinct_nontrivial": len(distinct),
         "rule": P.rule,
         "samples": samples,
-        "traces_validated_against_impl": len(cases),
+        "traces_validated_against_impl": ncases,
         "disagreements_checked": len(disagreements) + len(oracle_fail),
         "outcome_histogram": dict(hist),
         "generator_histogram": dict(collections.Counter(c.gen for c in cases)),
         "known_findings_reported": dict(known_hits),
         "exhaustive": False,
         "run_s": round(run_s, 2), "build_s": round(b["build_s"], 2),
+        "escalation": escal,
     }
     if hasattr(P, "extra_coverage"):
         rep.coverage.update(P.extra_coverage())
